@@ -31,9 +31,12 @@ type crashPlan struct {
 	fired   bool
 	classes []string // class of every effect seen (reference run)
 	last    string
+	// the effect the crash prevented (for the torn-write variant)
+	nextOp, nextKey string
+	nextVal         []byte
 }
 
-func (p *crashPlan) gate(op, key string, _ []byte) string {
+func (p *crashPlan) gate(op, key string, val []byte) string {
 	switch op {
 	case "set", "del", "saveoffset", "send", "reset":
 	default:
@@ -52,6 +55,7 @@ func (p *crashPlan) gate(op, key string, _ []byte) string {
 	p.classes = append(p.classes, cl)
 	if p.at != 0 && p.count == p.at && !p.fired {
 		p.fired = true
+		p.nextOp, p.nextKey, p.nextVal = op, key, append([]byte{}, val...)
 		panic(world.CrashSentinel{At: p.at})
 	}
 	p.last = cl
@@ -83,6 +87,7 @@ type c13Outcome struct {
 	// StoreShape: per node, the signature store reduced to what does not depend on the run's random
 	// identifiers: per batch and message the sorted list of (broadcasting user, has-signature).
 	StoreShape string
+	Torn       string // set when the restart came up on a journal ending inside a record
 }
 
 func guarded(f func()) (crashed bool) {
@@ -101,6 +106,16 @@ func guarded(f func()) (crashed bool) {
 
 // runC13 plays one full key generation + one signed batch with the victim on LevelDB; crashes[i]
 // is the effect index (counted from the previous restart) before which the i-th crash happens.
+// torn > 0: the kill does not fall before effect k but in the middle of it - when effect k is a state
+// write, its journal record is cut (torn selects where, see world.TornWrite).
+func runC13Torn(seed uint64, n, t, victim int, crashes []int, torn int) c13Outcome {
+	c13Torn.Store(seed, torn)
+	defer c13Torn.Delete(seed)
+	return runC13(seed, n, t, victim, crashes)
+}
+
+var c13Torn sync.Map // case seed -> cut selector (keeps runC13's signature for its other callers)
+
 func runC13(seed uint64, n, t, victim int, crashes []int) c13Outcome {
 	out := c13Outcome{}
 	w, err := world.NewWorld(world.Options{N: n, T: t, Seed: seed, UseLevelDB: true})
@@ -144,6 +159,11 @@ func runC13(seed uint64, n, t, victim int, crashes []int) c13Outcome {
 		pre := v.State.Shadow()
 		prePending := pendingIDs(pre)
 		preOffset := offsetOf(pre)
+		if cut, ok := c13Torn.Load(seed); ok && plan.nextOp == "set" && plan.nextKey != "" {
+			v.TornNext = &world.TornWrite{Key: plan.nextKey, Val: plan.nextVal, Cut: cut.(int)}
+			out.Torn = fmt.Sprintf("write of %s (%d bytes) cut, selector %d", effClass("set", plan.nextKey), len(plan.nextVal), cut.(int))
+			plan.nextOp = ""
+		}
 		if err := v.CrashRestart(w.Board, w.Dir); err != nil {
 			out.Violation, out.Detail = "C13/restart-fails", err.Error()
 			return false
@@ -330,12 +350,13 @@ func runC13(seed uint64, n, t, victim int, crashes []int) c13Outcome {
 }
 
 func checkC13(c *Ctx) {
-	c.Rule = "fault enumeration: a reference run (full key generation + one signed batch, victim on real LevelDB, stepped Poll) yields the victim's sequence of durable effects (state Set/Delete/SaveOffset, board Send). For every effect index k the run is repeated with a kill before effect k (= after effect k-1): the database directory is copied as it is on disk, the old instance abandoned, and the node restarted on the copy through services.CreateServiceProviderWithCfg. Judged right after restart (offset == last saved, pending operations == pending before the kill) and at the end (every node signing-idle, same public projection, valid signature stored, offset == board length). Victim = every node, n in {2,3}; thorough adds double crashes. A live-mode part runs the real Poll() against gated decorators and checks its trace shape. The first nine effect indices of every reference run are enumerated in the quick tier too. distinct = distinct (n, victim, crash-point class) judged"
-	c.Assumptions = []string{"a single LevelDB Put is atomic (WAL); 'in the middle of a write' = between the writes of one logical update", "stepped Poll performs exactly the calls of BaseNodeService.Poll; the conformance part checks that shape on the real Poll", "operators re-submit the cached result file after a crash"}
+	c.Rule = "fault enumeration: a reference run (full key generation + one signed batch, victim on real LevelDB, stepped Poll) yields the victim's sequence of durable effects (state Set/Delete/SaveOffset, board Send). For every effect index k the run is repeated with a kill before effect k (= after effect k-1): the database directory is copied as it is on disk, the old instance abandoned, and the node restarted on the copy through services.CreateServiceProviderWithCfg. Judged right after restart (offset == last saved, pending operations == pending before the kill) and at the end (every node signing-idle, same public projection, valid signature stored, offset == board length). Victim = every node, n in {2,3}; thorough adds double crashes. A live-mode part runs the real Poll() against gated decorators and checks its trace shape. The first nine effect indices of every reference run are enumerated in the quick tier too. Kills in the middle of a state write: for state-write effects (every fifth in quick, all in thorough) the restart comes up on a copy whose journal ends inside the record of that write (cut one byte short / in the middle / after a few bytes), produced with the library's default options like LevelDBState.Set. distinct = distinct (n, victim, crash-point class) judged"
+	c.Assumptions = []string{"a torn journal record is produced by truncating the journal inside the record (a write(2) cut short); partial sector writes inside earlier records are not modelled", "stepped Poll performs exactly the calls of BaseNodeService.Poll; the conformance part checks that shape on the real Poll", "operators re-submit the cached result file after a crash"}
 	type job struct {
 		n, t, victim int
 		crashes      []int
 		ref          int
+		torn         int // 0: kill before the effect; 1..3: kill in the middle of it (state writes)
 	}
 	type refk struct{ n, t, victim int }
 	var refs []refk
@@ -365,19 +386,32 @@ func checkC13(c *Ctx) {
 		c.Add("reference_effects", o.Effects)
 		c.Sample(map[string]interface{}{"n": r.n, "t": r.t, "victim": r.victim, "durable_effects_in_reference_run": o.Effects, "board_len": o.Board, "effect_classes_head": o.Classes[:min(12, len(o.Classes))]})
 		for k := 1 + i%stride; k <= o.Effects+1; k += stride {
-			jobs = append(jobs, job{r.n, r.t, r.victim, []int{k}, i})
+			jobs = append(jobs, job{r.n, r.t, r.victim, []int{k}, i, 0})
 		}
 		// the start of the log (opening proposal, first answers: offset still 0 or small) is enumerated at every
 		// index in the quick tier too: what a restart makes of a nearly empty store differs from the general case
 		for k := 1; k <= 9 && k <= o.Effects && stride > 1; k++ {
 			if (k-1-i%stride)%stride != 0 {
-				jobs = append(jobs, job{r.n, r.t, r.victim, []int{k}, i})
+				jobs = append(jobs, job{r.n, r.t, r.victim, []int{k}, i, 0})
 			}
+		}
+		// kills in the middle of a state write: the journal of the state database ends inside the record
+		// (all writes in thorough, every fifth in quick, cut at three different places in turn)
+		tornSeen := 0
+		for k := 1; k <= len(o.Classes); k++ {
+			if !strings.HasPrefix(o.Classes[k-1], "set:") {
+				continue
+			}
+			tornSeen++
+			if stride > 1 && (tornSeen+i)%5 != 0 {
+				continue
+			}
+			jobs = append(jobs, job{r.n, r.t, r.victim, []int{k}, i, 1 + tornSeen%3})
 		}
 		// directed witness of the open finding: the first fsm_state -> operations window of the run
 		for k := 1; k < len(o.Classes) && stride > 1; k++ {
 			if o.Classes[k-1] == "set:vtopic_fsm_state" && o.Classes[k] == "set:vtopic_operations" {
-				jobs = append(jobs, job{r.n, r.t, r.victim, []int{k + 1}, i})
+				jobs = append(jobs, job{r.n, r.t, r.victim, []int{k + 1}, i, 0})
 				break
 			}
 		}
@@ -385,10 +419,10 @@ func checkC13(c *Ctx) {
 			rg := c.Rng(13, uint64(i))
 			for d := 0; d < 40; d++ {
 				k1 := 1 + rg.Intn(o.Effects)
-				jobs = append(jobs, job{r.n, r.t, r.victim, []int{k1, 1 + rg.Intn(12)}, i})
+				jobs = append(jobs, job{r.n, r.t, r.victim, []int{k1, 1 + rg.Intn(12)}, i, 0})
 			}
 			for d := 0; d < 10; d++ {
-				jobs = append(jobs, job{r.n, r.t, r.victim, []int{1 + rg.Intn(o.Effects), 1 + rg.Intn(10), 1 + rg.Intn(10)}, i})
+				jobs = append(jobs, job{r.n, r.t, r.victim, []int{1 + rg.Intn(o.Effects), 1 + rg.Intn(10), 1 + rg.Intn(10)}, i, 0})
 			}
 		}
 	}
@@ -396,7 +430,15 @@ func checkC13(c *Ctx) {
 	whereSeen := map[string]int{}
 	Parallel(len(jobs), 16, func(i int) {
 		jb := jobs[i]
-		o := runC13(c.Seed*13+uint64(i)*7+1, jb.n, jb.t, jb.victim, jb.crashes)
+		var o c13Outcome
+		if jb.torn > 0 {
+			o = runC13Torn(c.Seed*13+uint64(i)*7+1, jb.n, jb.t, jb.victim, jb.crashes, jb.torn)
+			if o.Crashed && o.Torn != "" {
+				c.Add("restarts_on_a_journal_ending_inside_a_record", 1)
+			}
+		} else {
+			o = runC13(c.Seed*13+uint64(i)*7+1, jb.n, jb.t, jb.victim, jb.crashes)
+		}
 		c.Eval(1)
 		if o.Violation == "inconclusive" {
 			c.Inconclusive("%s", o.Detail)
@@ -409,9 +451,11 @@ func checkC13(c *Ctx) {
 		mu.Lock()
 		whereSeen[o.Where]++
 		mu.Unlock()
-		c.Distinct(fmt.Sprintf("n%d v%d %s x%d", jb.n, jb.victim, o.Where, len(jb.crashes)))
+		// (a kill in the middle of write k is the crash point "before write k" as far as finding keys go: the
+		// record is dropped on recovery; what differs is the start-up on a damaged journal)
+		c.Distinct(fmt.Sprintf("n%d v%d %s x%d torn=%v", jb.n, jb.victim, o.Where, len(jb.crashes), o.Torn != ""))
 		if o.Violation != "" {
-			c.Violate(o.Violation+":"+o.Where, o.Detail, map[string]interface{}{"n": jb.n, "t": jb.t, "victim": jb.victim, "kill_before_effect": jb.crashes, "crash_point": o.Where})
+			c.Violate(o.Violation+":"+o.Where, o.Detail, map[string]interface{}{"n": jb.n, "t": jb.t, "victim": jb.victim, "kill_before_effect": jb.crashes, "crash_point": o.Where, "torn_write": o.Torn})
 		} else if ref := refOut[jb.ref].StoreShape; o.StoreShape != ref {
 			// applied exactly once in effect: who is recorded how often in the signature store is the same
 			// as in the run without a crash
